@@ -95,6 +95,20 @@ func (r *Recorder) Hijack() (net.Conn, *bufio.ReadWriter, error) {
 // Peer returns the harness side of the hijacked connection.
 func (r *Recorder) Peer() net.Conn { return r.peer }
 
+// FlushCount and HeaderCallCount read the counters under the recorder's lock (for observers on
+// another goroutine than the handler's).
+func (r *Recorder) FlushCount() int {
+	r.mu.Lock()
+	defer r.mu.Unlock()
+	return r.Flushes
+}
+
+func (r *Recorder) HeaderCallCount() int {
+	r.mu.Lock()
+	defer r.mu.Unlock()
+	return len(r.HeaderCalls)
+}
+
 // Status returns the status the client would see (200 if the handler returned
 // without sending anything, as net/http does).
 func (r *Recorder) Status() int {
